@@ -54,10 +54,16 @@ def canon(v, depth=0):
     return repr(v)
 
 
+GRID = {}
+
+
 def fmt_t(f):
+    """a time is printed as its grid index when it is bit-for-bit one of the case's timestamps (t / scale), else as repr"""
     f = float(f)
     if math.isnan(f):
         return 'nan'
+    if GRID:
+        return str(GRID[f]) if f in GRID else 'x' + repr(f)
     return str(int(f)) if f == int(f) else repr(f)
 
 
@@ -82,6 +88,11 @@ def run_case(c):
     if c.get('via') == 'read':
         return run_read(c)
     scale = c.get('scale', 1)
+    GRID.clear()
+    for e in c['entries']:
+        for t, _ in e.get('msgs', []):
+            if t != 'nan':
+                GRID[t / scale] = t
     data, idmaps, origs, classes, nominal = {}, [], [], [], []
     snapshots = []
     for e in c['entries']:
@@ -106,7 +117,7 @@ def run_case(c):
             snapshots.append((m, canon(vars(m))))
         data[cls.MESSAGE_TYPE] = md
         idmaps.append(idmap); origs.append((md.messages, list(md.messages))); classes.append(cls); nominal.append(nom)
-    steps = c.get('steps') or [{k: c.get(k) for k in ('mode', 'mt', 'mt_as', 'mt_container')}]
+    steps = c.get('steps') or [{k: c.get(k) for k in ('mode', 'mt', 'mt_as', 'mt_container', 'mode_form', 'call')}]
     next_id = sum(len(e.get('msgs', [])) for e in c['entries'])
     outs = []
     for st in steps:
@@ -118,10 +129,23 @@ def run_case(c):
                 outs.append('NUMPYEXC:%s' % type(e).__name__)
                 break
         mode = MODES[st['mode']]
+        mf = st.get('mode_form') or 'member'
+        if mf == 'int':
+            mode = int(mode)
+        elif mf == 'np':
+            mode = np.int64(int(mode))
         mt = make_mt(st)
+        mt_copy = None if mt is None else list(mt)
         keys_before = list(data.keys())
         try:
-            ret = DataLoader.time_align_data(data, mode, message_types=mt)
+            # every way of calling it: on the class, on an instance; mode positional or by keyword
+            cv = st.get('call') or 'class'
+            if cv == 'instance':
+                ret = DataLoader().time_align_data(data, mode, message_types=mt)
+            elif cv == 'keyword':
+                ret = DataLoader.time_align_data(data=data, mode=mode, message_types=mt)
+            else:
+                ret = DataLoader.time_align_data(data, mode, message_types=mt)
         except Exception as e:
             outs.append('EXC:%s:%s' % (type(e).__name__, str(e).replace('\n', ' ')[:160]))
             break
@@ -147,8 +171,8 @@ def run_case(c):
                     if timed:
                         now = float(el.p1_time)
                         if not (now == t or (math.isnan(now) and math.isnan(t))):
-                            items.append('T!%s:%d' % (fmt_t(now * scale), ident)); continue
-                    items.append('K%s:%d' % (fmt_t(t * scale), ident))
+                            items.append('T!%s:%d' % (fmt_t(now), ident)); continue
+                    items.append('K%s:%d' % (fmt_t(t), ident))
                 elif id(el) in all_ids:
                     items.append('X')
                 else:
@@ -160,7 +184,7 @@ def run_case(c):
                         d = canon(vars(cls())); d.pop('p1_time', None); default_canon = d
                     mine = canon(vars(el)); mine.pop('p1_time', None)
                     ok = type(el) is cls and mine == default_canon
-                    items.append(('F' if ok else 'B') + fmt_t(t * scale))
+                    items.append(('F' if ok else 'B') + fmt_t(t))
                     fresh.append((el, idmap, nom, t))
             out.append('R:' + ','.join(items))
         s = 'OK ' + ' '.join(out)
@@ -170,6 +194,8 @@ def run_case(c):
             s += ' RET'
         if list(data.keys()) != keys_before:
             s += ' KEYS'
+        if mt is not None and (len(mt) != len(mt_copy) or (not isinstance(mt, set) and list(mt) != mt_copy)):
+            s += ' ARGMUT'
         outs.append(s + ' | lists=' + ''.join(lists))
         # inserted messages are ordinary inputs of the next step: number them in (entry, position) order
         for el, idmap, nom, t in fresh:
@@ -206,6 +232,7 @@ def run_read(c):
     import os, tempfile
     from fusion_engine_client.parsers import FusionEngineEncoder
     scale = c.get('scale', 1)
+    GRID.clear()
     enc = FusionEngineEncoder()
     per_entry = []
     nreq = len(c['entries'])
@@ -242,6 +269,11 @@ def run_read(c):
             if len(got) != len(lst):
                 return 'SKIP:unaligned read returned %d of %d %s' % (len(got), len(lst), cls.__name__)
             hm = {}
+            for m, (ident, t, _) in zip(got, lst):
+                try:
+                    GRID[float(m.p1_time)] = t      # the decoded stamp of this grid point, bit for bit
+                except Exception:
+                    pass
             ref_canon[cls] = [json.dumps(canon(vars(m)), sort_keys=True, default=str) for m in got]
             for h, (ident, t, _) in zip(ref_canon[cls], lst):
                 hm.setdefault(h, []).append((ident, t))
@@ -285,14 +317,14 @@ def run_read(c):
                 if hm.get(h):
                     # messages with identical content (classes without numeric fields) are told apart by their order
                     ident, t = hm[h].pop(0)
-                    items.append('K%s:%d' % (fmt_t(t), ident))
+                    items.append('K%d:%d' % (t, ident))
                 else:
                     try:
                         t = float(el.p1_time)
                     except Exception:
                         items.append('B?'); continue
                     mine = canon(vars(el)); mine.pop('p1_time', None)
-                    items.append(('F' if (type(el) is cls and mine == d) else 'B') + fmt_t(t * scale))
+                    items.append(('F' if (type(el) is cls and mine == d) else 'B') + fmt_t(t))
             out.append('R:' + ','.join(items))
         s = 'OK ' + ' '.join(out)
         if set(res.keys()) != set(cls.MESSAGE_TYPE for cls in classes):
